@@ -1,12 +1,12 @@
 """C11 -- Connection validation and group scoping."""
-from props.common import contract_tasks, lemma_tasks, TRUSTED_CORE
+from props.common import other_tasks, contract_tasks, lemma_tasks, TRUSTED_CORE
 
 PROPERTY = "C11"
 
 
 def tasks(tier):
     return (contract_tasks("contracts.groups", "C11", tier=tier) + lemma_tasks("contracts.groups", "C11")
-            + contract_tasks("contracts.connect", "C11", tier=tier))
+            + contract_tasks("contracts.connect", "C11", tier=tier) + other_tasks("contracts.connect_bounded", "C11", "bounded"))
 
 
 TRUSTED_BASE = TRUSTED_CORE
